@@ -19,10 +19,12 @@ OUT = os.environ.get("VERIF_OUT", VERIF)   # dev only (mutant runner); registere
 
 
 def _bootstrap():
-    if os.environ.get("PYTHONHASHSEED") != "0" or os.environ.get("BCTPY_VERIF") != "1":
+    if os.environ.get("PYTHONHASHSEED") != "0" or os.environ.get("BCTPY_VERIF") != "1" or os.environ.get("OMP_NUM_THREADS") != "1":
         env = dict(os.environ)
         env["PYTHONHASHSEED"] = "0"
         env["BCTPY_VERIF"] = "1"
+        # one BLAS thread per worker process: no oversubscription, no fork-after-threads surprises
+        env["OMP_NUM_THREADS"] = env["OPENBLAS_NUM_THREADS"] = env["MKL_NUM_THREADS"] = "1"
         os.execve(sys.executable, [sys.executable, "-m", "bctverif.run"] + sys.argv[1:], env)
     repo = os.path.realpath(os.environ.get("VERIF_REPO", "/repo"))
     sys.path.insert(0, repo)
